@@ -11,10 +11,10 @@ def _idx(ranks):
 
 
 def gen_plain_einsum(rng, max_ranks=3, max_terms=2, max_factors=2, take_p=0.25, scalar_p=0.3, rank0_p=0.1,
-                     out_only_p=0.0):
+                     out_only_p=0.0, pool=None):
     """One Einsum as a dict {decl, expr, out, ranks, shape} (products, sums, take, scalars, rank-0)."""
     nr = rng.randint(1, max_ranks)
-    ranks = rng.sample(RANK_POOL, nr)
+    ranks = rng.sample(pool or RANK_POOL, nr)
     nterms = rng.randint(1, max_terms)
     names = iter(TENSOR_POOL)
     decl = {}
@@ -204,25 +204,28 @@ def shape_partitioned_mapping(rng, es, max_part_ranks=2, max_depth=3, well_order
     return m, syms
 
 
-def gen_product_einsum(rng, max_ranks=3, max_factors=3):
+def gen_product_einsum(rng, max_ranks=3, max_factors=3, pool=None):
     """A single product term (C03's class)."""
     return gen_plain_einsum(rng, max_ranks=max_ranks, max_terms=1, max_factors=max_factors, take_p=0.0,
-                            scalar_p=0.1, rank0_p=0.0)
+                            scalar_p=0.1, rank0_p=0.0, pool=pool)
 
 
 def holders(es, rank):
     return [t for t, rs in es["decl"].items() if rank in rs and t != es["out"]]
 
 
-def occupancy_mapping(rng, es, flatten_p=0.35, shape_above_p=0.3):
+def occupancy_mapping(rng, es, flatten_p=0.45, shape_above_p=0.3, shape_beside_flatten_p=0.5, second_flatten_p=0.6):
     """uniform_occupancy (1-2 levels, alone or beneath a shape split) and/or flatten() of 2-3 ranks of one tensor
-    (+ occupancy of the flattened rank), with a well-ordered loop order."""
+    (+ occupancy of the flattened rank), with a well-ordered loop order.  Beside a flatten(): a second, disjoint
+    flatten() of two further ranks of an input tensor (4-rank Einsums), and/or an independent partitioning of another rank
+    of the flattened tensor that is either an occupancy stack or a PURE shape stack (uniform_shape / nway_shape only)."""
     m = random_mapping(rng, es, loop_order_p=0.0)
     out = es["out"]
     part, syms, lv = {}, {}, {}
     ranks = list(es["ranks"])
     outr = es["decl"][out]
     flat = None
+    flat2 = None
     if len(ranks) >= 2 and rng.random() < flatten_p:
         # flatten 2-3 ranks held together by one input tensor
         cands = [t for t, rs in es["decl"].items() if t != out and len(rs) >= 2]
@@ -248,8 +251,31 @@ def occupancy_mapping(rng, es, flatten_p=0.35, shape_above_p=0.3):
             # compiler decide: put them last in its rank order
             rest = [r for r in es["decl"][t] if r not in fr]
             m["rank-order"][t] = rest + fr
-    free = [r for r in ranks if not flat or r not in flat[0]]
-    if free and (not flat or rng.random() < 0.4):
+            # a second flatten() of two further ranks, held together by an input tensor (the same one or another)
+            left = [r for r in ranks if r not in fr]
+            c2 = [t2 for t2, rs in es["decl"].items() if t2 != out and len([r for r in rs if r in left]) >= 2]
+            if c2 and rng.random() < second_flatten_p:
+                t2 = rng.choice(c2)
+                fr2 = rng.sample([r for r in es["decl"][t2] if r in left], 2)
+                name2 = "".join(fr2)
+                part["(%s)" % ", ".join(fr2)] = ["flatten()"]
+                lv[name2] = [name2]
+                flat2 = (fr2, name2, t2)
+                if t2 != t:
+                    m["rank-order"][t2] = [r for r in es["decl"][t2] if r not in fr2] + fr2
+                else:
+                    m["rank-order"][t] = [r for r in es["decl"][t] if r not in fr and r not in fr2] + fr2 + fr
+    free = [r for r in ranks if (not flat or r not in flat[0]) and (not flat2 or r not in flat2[0])]
+    if flat and free and rng.random() < shape_beside_flatten_p:
+        # an independent PURE shape split (no occupancy level) of another rank, preferably of the flattened tensor itself
+        same = [r for r in free if r in es["decl"][flat[2]]]
+        r = rng.choice(same or free)
+        depth = rng.choice([1, 1, 2])
+        part[r], s = gen_shape_stack(rng, r, depth)
+        syms.update(s)
+        lv[r] = levels_of(r, depth)
+        free = []
+    if free and (not flat or rng.random() < 0.6):
         r = rng.choice(free)
         hs = holders(es, r)
         if hs:
@@ -269,12 +295,11 @@ def occupancy_mapping(rng, es, flatten_p=0.35, shape_above_p=0.3):
     m["partitioning"] = {out: part}
     # loop order: units = flattened rank (as one unit) and other ranks; well-ordered interleaving
     units = []
-    seen_flat = False
     for r in list(outr) + [r for r in ranks if r not in outr]:
-        if flat and r in flat[0]:
-            if not seen_flat:
-                units.append(flat[1])
-                seen_flat = True
+        fl = flat if (flat and r in flat[0]) else (flat2 if (flat2 and r in flat2[0]) else None)
+        if fl:
+            if fl[1] not in units:
+                units.append(fl[1])
         else:
             units.append(r)
     rng.shuffle(units)
